@@ -183,14 +183,16 @@ impl Desc {
 			_ => true,
 		}
 	}
-	/// F3: some (nested) delay has floor(delay_time * sr) = 0
+	/// some (nested) delay has floor(delay_time * sr) = 0 (was F3)
+	#[allow(dead_code)]
 	fn short_delay(&self, sr: u32) -> bool {
 		match self {
 			Delay { time, fx, .. } => ((time.as_secs_f64() * sr as f64) as usize) == 0 || fx.iter().any(|d| d.short_delay(sr)),
 			_ => false,
 		}
 	}
-	/// F4: some (nested) distortion has drive <= -60 dB
+	/// some (nested) distortion has drive <= -60 dB (was F4)
+	#[allow(dead_code)]
 	fn silent_drive(&self) -> bool {
 		match self {
 			Dist { db, .. } => *db <= -60.0,
@@ -525,15 +527,11 @@ fn describe(d: &Desc, sr: u32) -> String {
 	format!("{:?} @ {} Hz", d, sr)
 }
 
-/// classify a failing configuration against the two expected findings
-fn class_of(d: &Desc, sr: u32) -> Option<&'static str> {
-	if d.short_delay(sr) {
-		Some("delay_shorter_than_one_frame")
-	} else if d.silent_drive() {
-		Some("distortion_drive_silent")
-	} else {
-		None
-	}
+/// F3 (delay shorter than one frame) and F4 (distortion drive <= -60 dB) are repaired in /repo
+/// (229f4e8, 16e4488): no failure is attributed to a known class any more, a recurrence is a
+/// VIOLATION.
+fn class_of(_d: &Desc, _sr: u32) -> Option<&'static str> {
+	None
 }
 
 fn same_bits(a: &[Frame], b: &[Frame]) -> Option<usize> {
@@ -638,22 +636,44 @@ pub fn run(args: &Args) {
 		let (input, _) = gen_signal(&mut rng, 24);
 		emit_case(&mut s, &cx, "delay_slice_exceeds_internal_buffer", &d, sr, 8, &[4, 12, 8], &input);
 	}
-	// --- witnesses of the _refuted lemmas (Props.v), replayed on the implementation
+	// --- regression corpus of the two repaired findings (a recurrence is a VIOLATION) and the
+	//     witness of the remaining _refuted lemma, replayed on the implementation
 	{
-		let x = vec![Frame::new(0.5, -0.25), Frame::new(0.0, 1.0)];
-		// F3
-		let d = Delay { time: Duration::ZERO, fb: -6.0, mix: 0.5, fx: vec![] };
-		let o = emit_case(&mut s, &cx, "witness_F3", &d, 48000, 8, &[2], &x);
-		if !matches!(o, Outcome::Ok(_)) {
-			s.fail(describe(&d, 48000), format!("process panics (code {:?}) instead of producing output", o), Some("delay_shorter_than_one_frame"));
+		let x = vec![Frame::new(0.5, -0.25), Frame::new(0.0, 1.0), Frame::new(-1.0, 0.75), Frame::new(0.125, 0.0)];
+		// F3: delay_time ZERO / shorter than one frame: the line holds one frame
+		for (time, sr) in [(Duration::ZERO, 48000u32), (Duration::from_micros(100), 8000), (Duration::from_nanos(1), 192000)] {
+			for mix in [0.0f32, 0.5, 1.0] {
+				let d = Delay { time, fb: -6.0, mix, fx: vec![] };
+				let o = emit_case(&mut s, &cx, "regression_F3", &d, sr, 8, &[1, 3], &x);
+				match o {
+					Outcome::Ok(v) => {
+						if mix == 0.0 && same_bits(&v, &x).is_some() {
+							s.fail(describe(&d, sr), format!("fully dry delay changes the signal: {:?} -> {:?}", x, v), None);
+						}
+						if v.iter().any(|f| !f.left.is_finite() || !f.right.is_finite()) {
+							s.fail(describe(&d, sr), format!("non-finite output {:?}", v), None);
+						}
+					}
+					_ => s.fail(describe(&d, sr), format!("process panics ({}) instead of producing output", last_panic()), None),
+				}
+			}
 		}
-		// F4
-		for hard in [true, false] {
-			let d = Dist { hard, db: -60.0, mix: 0.0 };
-			let o = emit_case(&mut s, &cx, "witness_F4", &d, 48000, 8, &[2], &x);
-			if let Outcome::Ok(v) = o {
-				if v.iter().any(|f| f.left.is_nan() || f.right.is_nan()) {
-					s.fail(describe(&d, 48000), format!("fully dry distortion at -60 dB drive outputs {:?} for input {:?}", v, x), Some("distortion_drive_silent"));
+		// F4: drive of -60 dB and less, both kinds, dry and wet
+		for db in [-60.0f32, -100.0] {
+			for hard in [true, false] {
+				for mix in [0.0f32, 1.0] {
+					let d = Dist { hard, db, mix };
+					let o = emit_case(&mut s, &cx, "regression_F4", &d, 48000, 8, &[2, 2], &x);
+					match o {
+						Outcome::Ok(v) => {
+							if v.iter().any(|f| !f.left.is_finite() || !f.right.is_finite()) {
+								s.fail(describe(&d, 48000), format!("distortion at {db} dB drive outputs {:?} for input {:?}", v, x), None);
+							} else if mix == 0.0 && !v.iter().zip(x.iter()).all(|(a, b)| a.left == b.left && a.right == b.right) {
+								s.fail(describe(&d, 48000), format!("fully dry distortion changes the signal: {:?} -> {:?}", x, v), None);
+							}
+						}
+						_ => s.fail(describe(&d, 48000), "process panics".into(), None),
+					}
 				}
 			}
 		}
@@ -732,8 +752,8 @@ pub fn run(args: &Args) {
 		let bounded: Vec<Frame> = input.iter().map(|f| Frame::new(f.left.clamp(-1.0, 1.0), f.right.clamp(-1.0, 1.0))).collect();
 		check_identity(&mut s, &Dist { hard: true, db: 0.0, mix: 1.0 }, sr, &bounded, "hard clip at 0 dB drive");
 	}
-	// the edges named by the expected findings: dry distortion at drive <= -60 dB, zero delay
-	for db in [-60.0f32, -75.0] {
+	// the edges of the two repaired findings: dry distortion at drive <= -60 dB, zero delay
+	for db in [-60.0f32, -75.0, -100.0] {
 		for hard in [true, false] {
 			let input = noise(&mut rng, 256, 1.0);
 			check_identity(&mut s, &Dist { hard, db, mix: 0.0 }, 48000, &input, "dry mix");
